@@ -1,3 +1,4 @@
+#include "src/common/stack_guard.h"
 #include "core/interpreter.h"
 #ifdef CB_VERIF
 #include "../../../common/verif_hooks.h"
@@ -830,6 +831,10 @@ void Interpreter::process_ndim_array_literal(const ASTNode *literal_node,
 void Interpreter::execute_statement(const ASTNode *node) {
     if (!node)
         return;
+    if (cb_stack_guard::exhausted()) {
+        throw std::runtime_error(
+            "Stack limit reached: expression nesting or recursion too deep");
+    }
 
     // ASTNodeTypeが異常な値でないことを確認
     int node_type_int = static_cast<int>(node->node_type);
